@@ -12,6 +12,8 @@ PROP = {
         {"name": "conc", "args": ["orc=c04"],
          "quick": {"n": 480, "workers": 8, "args": ["shards=8", "mix=ex2+rand"]},
          "thorough": {"n": 8000, "workers": 14, "args": ["shards=14", "mix=ex2+ex3+rand"]}},
+        # Checkpoint.Forward / NextServerSeq / SyncClientSeq on literal pairs (CP.* lines): ties the checkpoint-join theorems
+        {"name": "time", "quick": {"n": 1500, "workers": 4}, "thorough": {"n": 100000, "workers": 14}},
     ],
     "trusted_base": BASE_TB + [
         "Model/Server.lean is hand-written; it agrees with server/rpc, server/clients, server/packs, database/client_info.go and the memory DB only as far as the `proto` engine's request streams exercise them (sequential requests on one in-process server, memory DB)",
